@@ -232,6 +232,7 @@ extern int_t   dLUMemInit (fact_t, void *, int_t, int, int, int_t, int,
                             GlobalLU_t *, int **, double **);
 extern void    dSetRWork (int, int, double *, double **, double **);
 extern void    dLUWorkFree (int *, double *, GlobalLU_t *);
+extern void    dLUMemFree (fact_t, GlobalLU_t *);
 extern int_t   dLUMemXpand (int, int_t, MemType, int_t *, GlobalLU_t *);
 
 extern double  *doubleMalloc(size_t);
